@@ -1,0 +1,115 @@
+//! `cfg(libp2p_verif)` verification hook (property C46), compiled as a child module of
+//! `handler` so that it can reach the handler's private items.  Public wrappers that only *call*
+//! existing code: `Info::try_from(proto::Identify)`, `PushInfo::try_from`, `Info::merge`,
+//! `Handler::new`, `Handler::handle_incoming_info`, and the two `active_streams.try_push(recv_*)`
+//! lines of `on_fully_negotiated_{outbound,inbound}` with an in-memory byte stream in place of the
+//! negotiated `Stream`.  Not compiled unless `--cfg libp2p_verif` is passed.
+
+use std::{collections::HashSet, sync::Arc, time::Duration};
+
+use futures::{TryFutureExt, io::Cursor};
+use libp2p_core::Multiaddr;
+use libp2p_identity::{PeerId, PublicKey};
+use prost::Message as _;
+
+use super::{Handler, Success};
+use crate::{
+    behaviour::KeyType,
+    proto,
+    protocol::{self, Info, PushInfo, UpgradeError},
+};
+
+/// The fields of `proto::Identify`, raw.
+#[derive(Clone, Debug, Default, PartialEq, Eq)]
+pub struct RawIdentify {
+    pub protocol_version: Option<String>,
+    pub agent_version: Option<String>,
+    pub public_key: Option<Vec<u8>>,
+    pub listen_addrs: Vec<Vec<u8>>,
+    pub observed_addr: Option<Vec<u8>>,
+    pub protocols: Vec<String>,
+    pub signed_peer_record: Option<Vec<u8>>,
+}
+
+impl RawIdentify {
+    fn into_proto(self) -> proto::Identify {
+        proto::Identify {
+            protocol_version: self.protocol_version,
+            agent_version: self.agent_version,
+            public_key: self.public_key,
+            listen_addrs: self.listen_addrs,
+            observed_addr: self.observed_addr,
+            protocols: self.protocols,
+            signed_peer_record: self.signed_peer_record,
+        }
+    }
+
+    fn from_proto(m: proto::Identify) -> Self {
+        RawIdentify {
+            protocol_version: m.protocol_version,
+            agent_version: m.agent_version,
+            public_key: m.public_key,
+            listen_addrs: m.listen_addrs,
+            observed_addr: m.observed_addr,
+            protocols: m.protocols,
+            signed_peer_record: m.signed_peer_record,
+        }
+    }
+
+    /// protobuf encoding of the message (no length prefix)
+    pub fn encode(&self) -> Vec<u8> {
+        self.clone().into_proto().encode_to_vec()
+    }
+
+    pub fn decode(bytes: &[u8]) -> Option<RawIdentify> {
+        proto::Identify::decode(bytes).ok().map(Self::from_proto)
+    }
+}
+
+/// `Info::try_from(proto::Identify)`
+pub fn info_try_from(raw: RawIdentify) -> Result<Info, UpgradeError> {
+    Info::try_from(raw.into_proto())
+}
+
+/// `PushInfo::try_from(proto::Identify)`
+pub fn push_info_try_from(raw: RawIdentify) -> Result<PushInfo, UpgradeError> {
+    PushInfo::try_from(raw.into_proto())
+}
+
+/// `Handler::new` for a connection to `remote_peer_id`
+pub fn new_handler(remote_peer_id: PeerId, local_key: PublicKey) -> Handler {
+    Handler::new(
+        Duration::from_secs(3600),
+        remote_peer_id,
+        Arc::new(KeyType::from(local_key)),
+        String::new(),
+        String::new(),
+        Multiaddr::empty(),
+        HashSet::new(),
+    )
+}
+
+/// `Handler::handle_incoming_info`
+pub fn handle_incoming_info(h: &mut Handler, info: &Info) -> bool {
+    h.handle_incoming_info(info)
+}
+
+/// `Handler::remote_info`
+pub fn remote_info(h: &Handler) -> Option<Info> {
+    h.remote_info.clone()
+}
+
+/// The line of `on_fully_negotiated_outbound` for `/ipfs/id/1.0.0`, with `wire` (length-prefixed
+/// protobuf, as on the stream) in place of the negotiated stream.
+pub fn inject_identify_stream(h: &mut Handler, wire: Vec<u8>) -> bool {
+    h.active_streams
+        .try_push(protocol::recv_identify(Cursor::new(wire)).map_ok(Success::ReceivedIdentify))
+        .is_ok()
+}
+
+/// The line of `on_fully_negotiated_inbound` for `/ipfs/id/push/1.0.0`, likewise.
+pub fn inject_push_stream(h: &mut Handler, wire: Vec<u8>) -> bool {
+    h.active_streams
+        .try_push(protocol::recv_push(Cursor::new(wire)).map_ok(Success::ReceivedIdentifyPush))
+        .is_ok()
+}
